@@ -259,6 +259,14 @@ func genScript(rng *rand.Rand, name string, pathOrigin bool) *scriptT {
 			if rng.Intn(3) == 0 {
 				nu = 2 + rng.Intn(3)
 			}
+			// Container-replace idiom: one notification deletes the container and
+			// carries its new content (deletes are applied to what was there
+			// before; the notification's own updates stay).
+			if !pathOrigin && split < len(base) && rng.Intn(8) == 0 {
+				n.Delete = []*gpb.Path{toPath(base[split:], deprecated)}
+				s.mdl.del(append([]string{name, effOrigin(origin)}, indexOf(base)...))
+				s.mdlAlt.del(append([]string{name, defaultOrigin}, indexOf(base)...))
+			}
 			used := map[string]bool{}
 			for u := 0; u < nu; u++ {
 				lf := leafs[rng.Intn(len(leafs))]
@@ -277,6 +285,10 @@ func genScript(rng *rand.Rand, name string, pathOrigin bool) *scriptT {
 				s.mdlAlt.set(append([]string{name, defaultOrigin}, indexOf(es)...), v.Go)
 				known = append(known, stored{origin, es})
 			}
+		}
+		// A target may omit the prefix altogether.
+		if n.Prefix.Origin == "" && len(n.Prefix.Elem) == 0 && len(n.Prefix.Element) == 0 && rng.Intn(2) == 0 {
+			n.Prefix = nil
 		}
 		s.responses = append(s.responses, &gpb.SubscribeResponse{Response: &gpb.SubscribeResponse_Update{Update: n}})
 	}
